@@ -314,7 +314,7 @@ CLAIMED["C11"] = {
             "the descents stop on gap < tol*||y||^2 and return the gap that was compared; "
             "OLS under fit_intercept appends a ones column along the feature axis, publishes its coefficient (the last one) as the intercept and removes it from the parameters, publishes a zero intercept otherwise; "
             "Clone impls, builder methods, accessors and constructors of linfa-elasticnet and linfa-linear carry what was configured, no generic-float value is narrowed to f32 and stored, raw buffers are used by position only behind a layout test. "
-            "A residual update that is skipped under a zero test vanishes whenever the tested value is zero (it is a product with it: the residual never goes stale); no filtered list of column positions is zipped with an unfiltered walk over the columns; `Default::default()` and `new()` of the estimators build the same value. "
+            "Zero tests that decide whether a column is skipped or the residual is updated are exact comparisons - an absolute tolerance on a quantity that scales with the data makes the fit depend on the unit of the features (they were abs_diff tests: repaired). A residual update that is skipped under a zero test vanishes whenever the tested value is zero (it is a product with it: the residual never goes stale); no filtered list of column positions is zipped with an unfiltered walk over the columns; `Default::default()` and `new()` of the estimators build the same value. "
             "Not decided: optimality itself (KKT conditions, orthogonality of the OLS residual), non-negativity of the gap, convergence within the iteration budget.",
     "design_ref": "DESIGN.md section 4, C11",
     "note": "Trusted: rustc resolution/typeck, the fact dump. Claimed late in the build (section 5).",
